@@ -328,9 +328,16 @@ impl CompressedUsedLeafsIndexes {
         &mut self,
         tree_heights: &ArrayVec<[u8; MAX_ALLOWED_HSS_LEVELS]>,
     ) -> Result<(), ()> {
-        let total_tree_height: u32 = tree_heights.iter().sum::<u8>().into();
+        let total_tree_height: u32 = tree_heights.iter().map(|&height| height as u32).sum();
 
-        if self.count >= (2u64.pow(total_tree_height) - 1) {
+        // Keys with a total height of 64 or more can never count up to their last leaf
+        let last_count = if total_tree_height >= u64::BITS {
+            u64::MAX
+        } else {
+            2u64.pow(total_tree_height) - 1
+        };
+
+        if self.count >= last_count {
             return Err(());
         }
 
